@@ -259,6 +259,14 @@ class FnTranslator:
                     and len(e[3][1]) == 2 and e[3][1][1][0] == "pident" and e[3][2] == ["path", e[3][1][1][1]]:
                 return self.expr(e[2])             # a borrow mapped through the identity closure
             muts = [S(a[1][1]) for a in e[2:] if a[0] == "refmut" and a[1][0] == "path" and len(a[1]) == 2]
+            reb = [S(a[1]) for a in e[2:] if a[0] == "path" and len(a) == 2 and S(a[1]) in getattr(self, "mut_params_state", ())]
+            if reb and not muts and self.interior and len(reb) == 1 and FOREIGN.get("::".join(segs), "").startswith("call:"):
+                # the function's own `&mut` parameter handed on (a reborrow): the same protocol
+                x, tgt = reb[0], FOREIGN["::".join(segs)][5:]
+                self.calls.add(tgt)
+                return ("(EBlock [SLet (PCon \"()\" [PVar \"st_res\"; PVar \"st_new\"]) (ECall %s %s); "
+                        "SExpr (EAssign %s [] (EVar \"st_new\")); STail (EVar \"st_res\")])" % (
+                            cs(tgt), clist([self.expr(a) for a in e[2:]]), cs(x)))
             if muts:
                 # `f(.., &mut x, ..)` with f an operation of another component: f answers (result, new value of x); x takes it
                 name = "::".join(segs)
@@ -872,6 +880,8 @@ def translate_fn(sx, self_type=None, struct_fields=None, qualified=None, setup=N
             continue                # `&mut self` of a type without fields: there is nothing to mutate
         if pt == "&mut self" and getattr(t, "mut_self_state", False):
             continue                # state passing: the method returns the updated `self` (see below)
+        if pn in getattr(t, "mut_params_state", ()) and "&mut" in pt.replace(" ", ""):
+            continue                # state passing: the function returns (its value, the updated parameter) (see below)
         if "&mut" in pt.replace(" ", "") or pt == "&mut self":
             raise TranslateError("fn %s: parameter %s is a mutable reference (aliasing is not modelled)" % (name, pn))
         if pn.startswith("?"):
@@ -892,6 +902,12 @@ def translate_fn(sx, self_type=None, struct_fields=None, qualified=None, setup=N
         if "EReturn" in btext:
             raise TranslateError("fn %s: `return` inside a method translated by state passing" % name)
         btext = "(EBlock [SExpr %s; STail (EVar \"self\")])" % btext
+    mps = [pn for pn, pt in params if pn in getattr(t, "mut_params_state", ()) and "&mut" in pt.replace(" ", "")]
+    if mps:
+        if "EReturn" in btext:
+            raise TranslateError("fn %s: `return` inside a function whose `&mut` parameter is translated by state passing" % name)
+        btext = "(EBlock [SLet (PVar \"fn_res\") %s; STail (ECon \"()\" %s)])" % (
+            btext, clist(["(EVar \"fn_res\")"] + ["(EVar %s)" % cs(x) for x in mps]))
     if getattr(t, "diag_local", False):
         # a checking function that returns nothing: its diagnostics, in order, are the result
         if "EReturn" in btext:
@@ -1301,14 +1317,27 @@ def translate_generics():
         t.accessor_methods = {"msg_type"}
         t.own_methods = {"used_unused": "CheckGenerics::used_unused", "attr_msg": "VariantDesc::attr_msg",
                          "attrs_to_forward": "VariantDesc::attrs_to_forward", "into_sig": "VariantDesc::into_sig"}
-    FOREIGN["MsgVariant::new"] = "call:extern::MsgVariant::new"
+    FOREIGN["MsgVariant::new"] = "call:MsgVariant::new"
     del LAST_AUX_FNS[:]
     mv = translate_methods("types/msg_variant.rs", {"MsgVariants": ["new"]}, setup=setup_mv,
                            kv=fetch_ast(os.path.join(common.REPO, "sylvia-derive", "src", "types", "msg_variant.rs")),
-                           extra_known=known | {"extern::MsgVariant::new", "filter_wheres", "CheckGenerics::used_unused",
+                           extra_known=known | {"MsgVariant::new", "filter_wheres", "CheckGenerics::used_unused",
                                                 "VariantDesc::attr_msg", "VariantDesc::attrs_to_forward", "VariantDesc::into_sig"})
     aux = list(LAST_AUX_FNS)
     del LAST_AUX_FNS[:]
+    # MsgVariant::new: one variant (its `&mut CheckGenerics` parameter by state passing)
+    def setup_v(t):
+        t.interior = True
+        t.mut_params_state = {"generics_checker"}
+        t.accessor_methods = {"msg_type", "resp_type"}
+        t.symbolic_methods = {"to_case"}
+        t.externals = {"fold_path"}
+        t.state_methods = {"visit_type": "extern::visit_type", "visit_path": "extern::visit_path"}
+    FOREIGN["process_fields"] = "call:extern::process_fields"
+    FOREIGN["extract_return_type"] = "extract_return_type"
+    mv += translate_methods("types/msg_variant.rs", {"MsgVariant": ["new"]}, setup=setup_v,
+                            kv=fetch_ast(os.path.join(common.REPO, "sylvia-derive", "src", "types", "msg_variant.rs")),
+                            extra_known={"extern::process_fields", "extern::visit_type", "extern::visit_path", "extern::fold_path"})
     # the accessors of a method description (parser/variant_descs.rs)
     def setup_vd(t):
         t.interior = True
